@@ -1,7 +1,7 @@
 CONSTANTS
   EB = 20
   StaleP = 200
-  MaxOps = 7
+  MaxOps = 6
   MaxMonths = 3
   GenHist = TRUE
   GenBias = FALSE
